@@ -436,7 +436,8 @@ open Swh.Merkle
 
 partial def termJ : HTerm → Json
   | .node d ks => Json.arr #[Json.num (JsonNumber.fromNat d),
-      Json.arr (ks.map (fun kv => Json.arr #[jB kv.1, termJ kv.2])).toArray]
+      Json.arr (ks.map (fun kv => Json.arr #[jB kv.1, Json.bool kv.2.1,
+        Json.num (JsonNumber.fromNat kv.2.2.1), termJ kv.2.2.2])).toArray]
 
 def entJ (e : EntryV HTerm) : Json :=
   Json.arr #[jB e.name, Json.bool e.isDir, Json.num (JsonNumber.fromNat e.cdata), termJ e.target]
@@ -485,8 +486,12 @@ def parseOp (j : Json) : Except String Op := do
 
 def opRun (j : Json) : Except String Json := do
   let ops ← (← getArr j "ops").toList.mapM parseOp
+  -- "leaf_class": n > 0 ⇒ the hash of a node with odd data d (a Content) retains only d / n
+  -- (contents with the same bytes and different permissions share a hash); 0 ⇒ injective
+  let n := (j.getObjValAs? Nat "leaf_class").toOption.getD 0
+  let q : Nat → Nat := fun d => if n > 0 && d % 2 == 1 then d / n * n + 1 else d
   let (_, outs) := ops.foldl (fun (acc : Heap HTerm × Array Json) op =>
-    let r := step HTerm.hashFn acc.1 op
+    let r := step (HTerm.hashFnQ q) acc.1 op
     (r.1, acc.2.push (outJ r.1 r.2))) (Heap.empty, #[])
   pure <| Json.mkObj [("outs", Json.arr outs)]
 
